@@ -17,6 +17,9 @@ type ZRec struct {
 	IP    net.IP    // A / AAAA
 	CNAME string    // CNAME
 	HTTPS dns.HTTPS // HTTPS
+	// Mandatory: the HTTPS record also carries the "mandatory" SvcParam (key 0), naming
+	// every other parameter it has (RFC 9460 section 8; dns.HTTPS has no field for it)
+	Mandatory bool
 }
 
 // Zone is the universe of DNS data behind the fake DoH server.
@@ -211,7 +214,19 @@ func PacketAdd(q Query, rcode int, ans, add []AnsRec) ([]byte, error) {
 			if e != nil {
 				return e
 			}
-			sv := dnsmessage.SVCBResource{Priority: a.Rec.HTTPS.Priority, Target: tn, Params: HTTPSParams(a.Rec.HTTPS)}
+			params := HTTPSParams(a.Rec.HTTPS)
+			if a.Rec.Mandatory && len(params) > 0 && a.Rec.HTTPS.Priority > 0 {
+				var v []byte
+				for _, p := range params {
+					if p.Key != 2 { // no-default-alpn is never listed: it is not optional-to-understand on its own
+						v = append(v, byte(p.Key>>8), byte(p.Key))
+					}
+				}
+				if len(v) > 0 {
+					params = append([]dnsmessage.SVCParam{{Key: 0, Value: v}}, params...)
+				}
+			}
+			sv := dnsmessage.SVCBResource{Priority: a.Rec.HTTPS.Priority, Target: tn, Params: params}
 			if a.Type == 64 {
 				return b.SVCBResource(hdr, sv)
 			}
